@@ -1,147 +1,23 @@
 (* Order independence at full strength (error outcomes included) for the shape in which
    - unify accepts Integer in both asserts,
    - SymbolKindTable.set flags insertions and re-raises failing unifications,
-   - loop variables are registered before the work-list loop.
+   - loop variables are registered before the work-list loop,
+   - the work-list loop starts its next pass instead of giving up when a retry sweep made no
+     progress although the table changed during the pass (c_restart),
+   - the registry is monotone (c_arr_only, KindRegistryProofs.call_kinds_mono).
    If one order returns a table T, every other order stays below T (KindFinderProofs), so no
-   unification can fail; it cannot get stuck either ("no progress"), because every statement the
-   first run managed to infer is inferable from the names the second run already has
-   (definedness of the mapper only depends on which names are known); and its closing
-   consistency loop sees an equal table. *)
+   unification can fail.  It cannot end in "no progress" either: that exit is only taken when the
+   table did not change during the whole pass, so every statement outside the push buffer is at
+   its post-fixed point under the current table S and the buffered ones cannot be inferred under
+   S; the first run, replayed below this weakly closed table, ends below S, hence T = S -- but
+   under T every statement can be inferred.  The closing consistency loop sees an equal table.
+   Also: dagrt.data.infer_kinds does not depend on the order of the phases dict. *)
 From Coq Require Import List String Bool Arith Lia Permutation.
 Import ListNotations.
-From Dagrt Require Import Unify UnifyProofs KindOrder KindInfer KindInferProofs KindTableProofs
-  KindFinderProofs.
+From Dagrt Require Import Unify UnifyProofs KindOrder KindInfer KindRegistryProofs KindInferProofs
+  KindTableProofs KindFinderProofs.
 Close Scope string_scope.
 Open Scope list_scope.
-
-(* ------------------------------------------------------------------ definedness of the mapper *)
-
-Fixpoint defd (lk : string -> option okind) (e : expr) : bool :=
-  match e with
-  | EConst _ => true
-  | EVar x => match lk x with Some _ => true | None => false end
-  | ESum l => existsb (defd lk) l
-  | EProd l => forallb (defd lk) l
-  | EQuot n d => defd lk n && defd lk d
-  | ECmp _ _ => true
-  end.
-
-Lemma defd_mono : forall lk1 lk2 e,
-  (forall x, lk1 x <> None -> lk2 x <> None) -> defd lk1 e = true -> defd lk2 e = true.
-Proof.
-  intros lk1 lk2 e H. induction e using expr_ind'; cbn; try reflexivity.
-  - destruct (lk1 x) eqn:E1; [|discriminate]. intros _.
-    destruct (lk2 x) eqn:E2; [reflexivity|]. exfalso. apply (H x); [congruence|assumption].
-  - rewrite !existsb_exists. intros [x [Hin Hx]]. exists x. split; [assumption|].
-    rewrite Forall_forall in H0. apply H0; assumption.
-  - rewrite !forallb_forall. intros Hall x Hin. rewrite Forall_forall in H0. apply H0; auto.
-  - rewrite !andb_true_iff. intros [A B]. auto.
-Qed.
-
-Section Defd.
-  Variable c : cfg.
-  Hypothesis Hut : c_ut_int c = true.
-  Hypothesis Harr : c_arr_int c = true.
-
-  Lemma UU_none : forall a b, UU a b = Ok None -> a = None /\ b = None.
-  Proof.
-    intros a b H. split.
-    - destruct a; [|reflexivity]. exfalso. eapply UU_some_l; [exact H|discriminate|reflexivity].
-    - destruct b; [|reflexivity]. exfalso. eapply UU_some_r; [exact H|discriminate|reflexivity].
-  Qed.
-
-  Lemma sum_fold_ok_child : forall rs acc exc k, sum_fold c rs acc exc = IOk k ->
-    acc <> None \/ exists k1, In (IOk k1) rs.
-  Proof.
-    induction rs as [|r rs IH]; intros acc exc k; cbn.
-    - destruct acc; [intros _; left; discriminate|destruct exc; discriminate].
-    - destruct r as [k1| |e]; [|intro H|discriminate].
-      + intros _. right. exists k1. left; reflexivity.
-      + destruct (IH _ _ _ H) as [A|[k1 A]]; [left; assumption|right; exists k1; right; assumption].
-  Qed.
-
-  Lemma prod_fold_ok_all : forall rs acc k, prod_fold c rs acc = IOk k ->
-    forall r, In r rs -> exists k1, r = IOk k1.
-  Proof.
-    induction rs as [|r rs IH]; intros acc k; cbn; [intros _ r []|].
-    destruct r as [k1| |e]; try discriminate.
-    destruct (U c acc k1); [|discriminate]. intros H r [<-|Hin]; [eexists; reflexivity|].
-    eapply IH; eassumption.
-  Qed.
-
-  Lemma infer_defd : forall lk e k, infer c lk e = IOk k -> defd lk e = true.
-  Proof.
-    intros lk e. induction e using expr_ind'; intros k; cbn [infer defd]; try reflexivity.
-    - destruct (lk x); [reflexivity|discriminate].
-    - intro Hs. destruct (sum_fold_ok_child _ _ _ _ Hs) as [A|[k1 A]]; [contradiction|].
-      apply in_map_iff in A. destruct A as [x [Hx Hin]].
-      apply existsb_exists. exists x. split; [assumption|].
-      rewrite Forall_forall in H. eapply H; eassumption.
-    - intro Hp. apply forallb_forall. intros x Hin.
-      destruct (prod_fold_ok_all _ _ _ Hp (infer c lk x)) as [k1 Hk1]; [apply in_map; assumption|].
-      rewrite Forall_forall in H. eapply H; eassumption.
-    - intro Hp. apply andb_true_iff. split.
-      + destruct (prod_fold_ok_all _ _ _ Hp (infer c lk e1)) as [k1 Hk1]; [left; reflexivity|].
-        eapply IHe1; eassumption.
-      + destruct (prod_fold_ok_all _ _ _ Hp (infer c lk e2)) as [k1 Hk1]; [right; left; reflexivity|].
-        eapply IHe2; eassumption.
-  Qed.
-
-  Lemma sum_fold_unable : forall rs acc exc, sum_fold c rs acc exc = IUnable ->
-    acc = None /\ forall r, In r rs -> r = IUnable \/ r = IOk None.
-  Proof.
-    induction rs as [|r rs IH]; intros acc exc; cbn.
-    - destruct acc; [discriminate|]. intros _. split; [reflexivity|intros r []].
-    - destruct r as [k1| |e]; [| |discriminate].
-      + rewrite (Uc c Hut Harr). destruct (UU acc k1) as [k'|] eqn:E; [|discriminate].
-        intro H. destruct (IH _ _ H) as [-> Hall]. apply UU_none in E. destruct E as [-> ->].
-        split; [reflexivity|]. intros r [<-|Hin]; [right; reflexivity|apply Hall; assumption].
-      + intro H. destruct (IH _ _ H) as [-> Hall].
-        split; [reflexivity|]. intros r [<-|Hin]; [left; reflexivity|apply Hall; assumption].
-  Qed.
-
-  Lemma prod_fold_unable : forall rs acc, prod_fold c rs acc = IUnable -> In IUnable rs.
-  Proof.
-    induction rs as [|r rs IH]; intros acc; cbn; [discriminate|].
-    destruct r as [k1| |e]; [|intros _; left; reflexivity|discriminate].
-    destruct (U c acc k1); [|discriminate]. intro H. right. eapply IH; eassumption.
-  Qed.
-
-  Lemma defd_infer : forall lk e, lk_nonone lk -> expr_ok e = true -> defd lk e = true ->
-    infer c lk e <> IUnable.
-  Proof.
-    intros lk e Hlk. induction e using expr_ind'; cbn [infer defd expr_ok]; intros Hok Hd.
-    - discriminate.
-    - destruct (lk x); [discriminate|discriminate].
-    - intro Hs. apply sum_fold_unable in Hs. destruct Hs as [_ Hall].
-      apply existsb_exists in Hd. destruct Hd as [x [Hin Hx]].
-      rewrite forallb_forall in Hok. rewrite Forall_forall in H.
-      destruct (Hall (infer c lk x)) as [A|A]; [apply in_map; assumption| |].
-      + eapply H; try eassumption. apply Hok; assumption.
-      + eapply (infer_some c Hut Harr); [exact Hlk|apply Hok; eassumption|exact A|reflexivity].
-    - apply andb_true_iff in Hok. destruct Hok as [_ Hok].
-      intro Hp. apply prod_fold_unable in Hp. apply in_map_iff in Hp. destruct Hp as [x [Hx Hin]].
-      rewrite forallb_forall in Hok, Hd. rewrite Forall_forall in H.
-      eapply H; try eassumption; auto.
-    - apply andb_true_iff in Hok. destruct Hok as [Hok1 Hok2].
-      apply andb_true_iff in Hd. destruct Hd as [Hd1 Hd2].
-      intro Hp. apply prod_fold_unable in Hp. destruct Hp as [Hp|[Hp|[]]].
-      + eapply IHe1; eauto.
-      + eapply IHe2; eauto.
-    - discriminate.
-  Qed.
-
-End Defd.
-
-(* ------------------------------------------------------------------ keys *)
-
-Definition has_key (T : table) (ky : key) : Prop := tfind T ky <> None.
-
-Lemma has_key_mono : forall T L ky, tle T L -> has_key T ky -> has_key L ky.
-Proof.
-  intros T L ky Hle H. unfold has_key in *. destruct (tfind T ky) as [k|] eqn:E; [|contradiction].
-  destruct (Hle _ _ E) as [k' [E' _]]. congruence.
-Qed.
 
 Section Full.
   Variable c : cfg.
@@ -149,6 +25,8 @@ Section Full.
   Hypothesis Harr : c_arr_int c = true.
   Hypothesis Hins : c_ins_changed c = true.
   Hypothesis Hraise : c_set_raises c = true.
+  Hypothesis Hrestart : c_restart c = true.
+  Hypothesis Hao : c_arr_only c = true.
 
   Definition loops_present (T : table) (items : list qitem) : Prop :=
     forall it, In it items -> loops_closed c T (fst it) (b_loops (snd it)).
@@ -194,38 +72,21 @@ Section Full.
       intro H. rewrite (IH _ _ _ H). eapply tset_sw; eassumption.
   Qed.
 
+  Lemma set_many_sw : forall xs ks st p st', set_many c st p xs ks = Ok st' -> swallowed st' = swallowed st.
+  Proof.
+    induction xs as [|x xs IH]; intros ks st p st'; cbn.
+    - intros [= <-]; reflexivity.
+    - destruct ks as [|k ks]; [intros [= <-]; reflexivity|].
+      destruct (tset c st p x k) as [st1|e] eqn:E; [|discriminate].
+      intro H. rewrite (IH _ _ _ _ H). eapply tset_sw; eassumption.
+  Qed.
+
   Lemma pstep_sw : forall st it st', pstep c st it st' -> swallowed st' = swallowed st.
   Proof.
     intros st it st' H. destruct (process_cases c _ _ _ H) as [st1 [E1 Hc]].
     pose proof (set_loops_sw _ _ _ _ E1) as S1.
-    destruct Hc as [[_ [-> _]]|[[_ [_ [-> _]]]|[_ [k [_ [E2 _]]]]]]; try assumption.
-    rewrite (tset_sw _ _ _ _ _ E2). assumption.
-  Qed.
-
-  Lemma tset_has : forall st p x k st', tset c st p x k = Ok st' -> has_key (tbl st') (key_of c p x).
-  Proof.
-    intros st p x k st' H. apply (tset_inv c Hut Harr) in H. cbn in H. unfold has_key.
-    destruct H as [[E [Et _]]|[old [E H]]].
-    - rewrite Et, tfind_app, E, key_eqb_refl. discriminate.
-    - destruct H as [[_ ->]|[H|[[_ [_ ->]]|[_ [k' [_ [_ [Et _]]]]]]]]; try congruence.
-      + destruct H as [_ [_ [_ [Et _]]]]. rewrite Et. congruence.
-      + rewrite Et, (tfind_tupd_same _ _ _ _ E). discriminate.
-  Qed.
-
-  Lemma tset_keys_sub : forall st p x k st' ky, tset c st p x k = Ok st' ->
-    has_key (tbl st') ky -> has_key (tbl st) ky \/ ky = key_of c p x.
-  Proof.
-    intros st p x k st' ky H. apply (tset_inv c Hut Harr) in H. cbn in H. unfold has_key.
-    destruct H as [[E [Et _]]|[old [E H]]].
-    - rewrite Et, tfind_app. destruct (tfind (tbl st) ky); [left; assumption|].
-      destruct (key_eqb ky (key_of c p x)) eqn:E3; [|contradiction].
-      apply key_eqb_eq in E3. right; assumption.
-    - destruct H as [[_ ->]|[H|[[_ [_ ->]]|[_ [k' [_ [_ [Et _]]]]]]]]; try (left; assumption).
-      + destruct H as [_ [_ [_ [Et _]]]]. rewrite Et. left; assumption.
-      + rewrite Et. destruct (key_eqb ky (key_of c p x)) eqn:E3.
-        * apply key_eqb_eq in E3. right; assumption.
-        * rewrite tfind_tupd_other; [left; assumption|].
-          intro; subst ky. rewrite key_eqb_refl in E3. discriminate.
+    destruct Hc as [[_ [-> _]]|[[_ [_ [-> _]]]|[_ [ks [_ [E2 _]]]]]]; try assumption.
+    rewrite (set_many_sw _ _ _ _ _ E2). assumption.
   Qed.
 
   (* after set_loops every listed identifier has an entry >= Integer *)
@@ -273,51 +134,26 @@ Section Full.
       + exact (IH _ _ Hg1 H x Hx).
   Qed.
 
-  Lemma set_loops_keys_sub : forall l st p st' ky, set_loops c st p l = Ok st' ->
-    has_key (tbl st') ky -> has_key (tbl st) ky \/ exists i, In i l /\ ky = key_of c p i.
-  Proof.
-    induction l as [|i r IH]; intros st p st' ky; cbn.
-    - intros [= <-] H; left; assumption.
-    - destruct (tset c st p i (Some KInt)) as [st1|e] eqn:E; [|discriminate].
-      intros H Hk. destruct (IH _ _ _ _ H Hk) as [A|[j [Hj A]]].
-      + destruct (tset_keys_sub _ _ _ _ _ _ E A) as [B|B]; [left; assumption|].
-        right. exists i. split; [left; reflexivity|assumption].
-      + right. exists j. split; [right; assumption|assumption].
-  Qed.
-
-  Lemma prepass_keys_sub : forall l st st' ky, prepass c st l = Ok st' ->
-    has_key (tbl st') ky ->
-    has_key (tbl st) ky \/ exists it i, In it l /\ In i (b_loops (snd it)) /\ ky = key_of c (fst it) i.
-  Proof.
-    induction l as [|it r IH]; intros st st' ky; cbn.
-    - intros [= <-] H; left; assumption.
-    - destruct (set_loops c st (fst it) (b_loops (snd it))) as [st1|e] eqn:E; [|discriminate].
-      intros H Hk. destruct (IH _ _ _ H Hk) as [A|[x [i [Hx [Hi A]]]]].
-      + destruct (set_loops_keys_sub _ _ _ _ _ E A) as [B|[i [Hi B]]]; [left; assumption|].
-        right. exists it, i. split; [left; reflexivity|split; assumption].
-      + right. exists x, i. split; [right; assumption|split; assumption].
-  Qed.
-
   Lemma final_check_none : forall T l, final_check c T l = None <->
-    forall it, In it l -> exists k, infer c (lookup T (fst it)) (b_raw (snd it)) = IOk k.
+    forall it, In it l -> check_item c T it = None.
   Proof.
     intros T. induction l as [|it r IH]; cbn.
     - split; [intros _ x []|reflexivity].
-    - destruct (infer c (lookup T (fst it)) (b_raw (snd it))) as [k| |e] eqn:E.
+    - destruct (check_item c T it) as [e|] eqn:E.
+      + split; [discriminate|]. intro H. rewrite (H it (or_introl eq_refl)) in E. discriminate.
       + rewrite IH. split.
-        * intros H x [<-|Hx]; [exists k; assumption|apply H; assumption].
+        * intros H x [<-|Hx]; [assumption|apply H; assumption].
         * intros H x Hx. apply H. right; assumption.
-      + split; [discriminate|]. intro H. destruct (H it (or_introl eq_refl)) as [k Hk]. congruence.
-      + split; [discriminate|]. intro H. destruct (H it (or_introl eq_refl)) as [k Hk]. congruence.
   Qed.
 
   Lemma lookup_equiv : forall T T' p x, table_equiv T T' -> lookup T p x = lookup T' p x.
   Proof. intros T T' p x H. unfold lookup. rewrite !H. reflexivity. Qed.
 
-  Lemma lookup_keys : forall T L p x, canon c T -> canon c L ->
-    (forall ky, has_key T ky -> has_key L ky) -> lookup T p x <> None -> lookup L p x <> None.
+  Lemma check_item_equiv : forall T T' it, table_equiv T T' -> check_item c T it = check_item c T' it.
   Proof.
-    intros T L p x HT HL H. rewrite (lookup_canon c T p x HT), (lookup_canon c L p x HL). apply H.
+    intros T T' it H. unfold check_item.
+    rewrite (eval_check_ext c (lookup T (fst it)) (lookup T' (fst it)) (snd it)); [reflexivity|].
+    intro x. apply lookup_equiv; assumption.
   Qed.
 
   (* ---------------------------------------------------------------- the two runs *)
@@ -330,7 +166,6 @@ Section Full.
     Hypothesis Hgf : good c stf.
     Hypothesis Hg1 : good c st1.
     Hypothesis Hstart1 : start c stf all = Ok st1.
-    Hypothesis Hpres1 : loops_present (tbl st1) all.
     Hypothesis Hrun1 : outer c fuel1 st1 all = OTable T sw1.
     Hypothesis Hsw1 : swallowed st1 = false.
 
@@ -371,114 +206,101 @@ Section Full.
     (* the invariant of run 2 *)
     Definition inv2 (s : tstate) : Prop :=
       good c s /\ tle (tbl s) T /\ tle (tbl stf) (tbl s) /\ loops_present (tbl s) all' /\
-      (forall ky, has_key (tbl st1) ky -> has_key (tbl s) ky) /\ swallowed s = false.
+      swallowed s = false.
 
     Lemma inv2_reset : forall s, inv2 s -> inv2 (reset s).
     Proof. intros s H; exact H. Qed.
 
     Lemma inv2_step : forall s it s', In it all' -> inv2 s -> pstep c s it s' -> inv2 s'.
     Proof.
-      intros s it s' Hin [Hg [HleT [Hlef [Hpres [Hkeys Hsw]]]]] Hps.
+      intros s it s' Hin [Hg [HleT [Hlef [Hpres Hsw]]]] Hps.
       assert (Hgrow : tle (tbl s) (tbl s')) by (eapply (process_grows c Hut Harr); try eassumption; apply Hwf'; assumption).
       split; [eapply (process_good c Hut Harr); try eassumption; apply Hwf'; assumption|].
       split.
-      { destruct (process_below c Hut Harr s it T Hg (proj1 run1_closed) HleT (closed_all' it Hin))
+      { destruct (process_below c Hut Harr Hao s it T Hg (proj1 run1_closed) HleT
+                    (closed_wclosed c T it (closed_all' it Hin)))
           as [s2 [Hps2 [Hle2 _]]].
         rewrite (pstep_det c _ _ _ _ Hps Hps2). assumption. }
       split; [eapply tle_trans; eassumption|].
       split; [eapply loops_present_mono; eassumption|].
-      split; [intros ky Hk; eapply has_key_mono; [exact Hgrow|apply Hkeys; assumption]|].
       rewrite (pstep_sw _ _ _ Hps). assumption.
     Qed.
 
-    (* a state of run 2 in which nothing more can be inferred cannot exist *)
+    (* a state of run 2 in which every statement is either closed or cannot be inferred does not
+       exist unless nothing is left over *)
     Lemma stuck_false : forall s b,
       inv2 s -> b <> [] -> incl b all' ->
       (forall x, In x b -> b_sub (snd x) = false /\
-                           infer c (lookup (tbl s) (fst x)) (b_flat (snd x)) = IUnable) ->
-      (forall it, In it all' -> b_sub (snd it) = false ->
-                  In it b \/ has_key (tbl s) (key_of c (fst it) (b_lhs (snd it)))) ->
+                           eval_work c (lookup (tbl s) (fst x)) (snd x) = MUnable) ->
+      (forall it, In it all' -> In it b \/ stmt_closed c (tbl s) it) ->
       False.
     Proof.
-      intros s b [Hg [HleT [Hlef [Hpres [Hkeys Hsw]]]]] Hne Hinc Hun Hmem.
+      intros s b [Hg [HleT [Hlef [Hpres Hsw]]]] Hne Hinc Hun Hdone.
       destruct run1_closed as [HcT [Hle1 Hcl1]].
-      (* an item inferable from a table whose names s has cannot be Unable in s *)
-      assert (Hnot : forall tau it k, In it all -> good c tau ->
-                (forall ky, has_key (tbl tau) ky -> has_key (tbl s) ky) ->
-                infer c (lookup (tbl tau) (fst it)) (b_flat (snd it)) = IOk k ->
-                infer c (lookup (tbl s) (fst it)) (b_flat (snd it)) <> IUnable).
-      { intros tau it k Hin Hgt Hk Hi.
-        apply (defd_infer c Hut Harr).
-        - apply lookup_nonone. apply Hg.
-        - apply Hwf; assumption.
-        - eapply defd_mono; [|eapply infer_defd; exact Hi].
-          intro x. apply lookup_keys; [apply Hgt|apply Hg|assumption]. }
-      (* names of every table of run 1 are names of s *)
-      pose (P := fun tau : tstate => good c tau /\ loops_present (tbl tau) all /\
-                                     forall ky, has_key (tbl tau) ky -> has_key (tbl s) ky).
-      destruct (outer_last c P all) with (fuel := fuel1) (st := st1) (T := T) (sw := sw1)
-        as [st0 [st' [_ [_ [_ [_ [HT [_ [[Hg' [_ Hk']] _]]]]]]]]]; try assumption.
-      - intros tau H; exact H.
-      - intros tau it tau' Hin [Hgt [Hpt Hkt]] Hps.
-        assert (Hgrow : tle (tbl tau) (tbl tau')) by (eapply (process_grows c Hut Harr); try eassumption; apply Hwf; assumption).
-        split; [eapply (process_good c Hut Harr); try eassumption; apply Hwf; assumption|].
-        split; [eapply loops_present_mono; eassumption|].
-        destruct (process_cases c _ _ _ Hps) as [tau1 [E1 Hc]].
-        rewrite (set_loops_same _ _ _ (Hpt it Hin)) in E1. injection E1 as <-.
-        destruct Hc as [[_ [-> _]]|[[_ [_ [-> _]]]|[Esub [k [Ei [E2 _]]]]]]; try assumption.
-        intros ky Hky. destruct (tset_keys_sub _ _ _ _ _ _ E2 Hky) as [A|A]; [apply Hkt; assumption|]. subst ky.
-        destruct (Hmem it (in_all' it Hin) Esub) as [Hb|Hb]; [|assumption].
-        exfalso. eapply (Hnot tau it k); try eassumption.
-        + rewrite <- Ei. apply (infer_ext c). intro x. symmetry. apply lookup_kim_same.
-        + apply Hun; assumption.
-      - split; [assumption|]. split; assumption.
-      - (* contradiction on the first element of b *)
-        destruct b as [|x b']; [contradiction|].
-        assert (Hx : In x all') by (apply Hinc; left; reflexivity).
-        destruct (Hun x (or_introl eq_refl)) as [Esub Eun].
-        destruct (Hcl1 x (in_all x Hx)) as [_ Hlhs]. destruct (Hlhs Esub) as [k [v [Ei _]]].
-        subst T. eapply (Hnot st' x k); try eassumption. apply in_all; assumption.
+      (* S = tbl s is weakly closed for every statement *)
+      assert (Hw : forall it, In it all -> stmt_wclosed c (tbl s) it).
+      { intros it Hin. destruct (Hdone it (in_all' it Hin)) as [Hb|Hc]; [|apply closed_wclosed; assumption].
+        split; [apply Hpres; apply in_all'; assumption|].
+        intros _. left. apply Hun; assumption. }
+      (* so run 1 stays below it *)
+      assert (HTle : tle T (tbl s)).
+      { destruct (start_below c Hut Harr all stf (tbl s) Hlef Hw) as [s1' [Es1 [Hles1 _]]].
+        rewrite Hstart1 in Es1. injection Es1 as <-.
+        eapply (run_below c Hut Harr Hao) with (st := st1) (all := all); try eassumption. apply Hg. }
+      assert (Heq : table_equiv (tbl s) T) by (apply tle_antisym; assumption).
+      (* but under T the first left-over statement can be inferred *)
+      destruct b as [|x b']; [contradiction|].
+      assert (Hx : In x all') by (apply Hinc; left; reflexivity).
+      destruct (Hun x (or_introl eq_refl)) as [Esub Eun].
+      destruct (Hcl1 x (in_all x Hx)) as [_ Hlhs]. destruct (Hlhs Esub) as [ks [Ei _]].
+      rewrite (eval_work_ext c (lookup (tbl s) (fst x)) (lookup T (fst x)) (snd x)) in Eun; [congruence|].
+      intro y. apply lookup_equiv; assumption.
     Qed.
 
     Lemma inner_no_err : forall fuel s q b pr e,
       inv2 s -> incl q all' -> incl b all' ->
       (forall x, In x b -> b_sub (snd x) = false) ->
-      (pr = false -> forall x, In x b -> infer c (lookup (tbl s) (fst x)) (b_flat (snd x)) = IUnable) ->
-      (forall it, In it all' -> b_sub (snd it) = false ->
-                  In it (q ++ b) \/ has_key (tbl s) (key_of c (fst it) (b_lhs (snd it)))) ->
+      (pr = false -> forall x, In x b -> eval_work c (lookup (tbl s) (fst x)) (snd x) = MUnable) ->
+      (changed s = false -> forall it, In it all' -> In it (q ++ b) \/ stmt_closed c (tbl s) it) ->
       inner c fuel s q b pr = FErr e -> False.
     Proof.
-      induction fuel as [|f IH]; intros s q b pr e Hinv Hq Hb Hbsub Hbun Hmem; cbn; [discriminate|].
+      induction fuel as [|f IH]; intros s q b pr e Hinv Hq Hb Hbsub Hbun Hdone; cbn; [discriminate|].
       destruct q as [|it q'].
       - destruct b as [|x b']; [discriminate|].
         destruct pr.
         + apply IH; try assumption.
           * intros y [].
           * intros _ y [].
-          * intros y Hy Hs. rewrite app_nil_r. apply (Hmem y Hy Hs).
-        + intros _. eapply (stuck_false s (x :: b')); try eassumption.
+          * intros Hc y Hy. rewrite app_nil_r. apply (Hdone Hc y Hy).
+        + rewrite Hrestart. cbn. destruct (changed s) eqn:Ec; [discriminate|].
+          intros _. eapply (stuck_false s (x :: b')); try eassumption.
           * discriminate.
           * intros y Hy. split; [apply Hbsub; assumption|apply Hbun; [reflexivity|assumption]].
+          * exact (Hdone eq_refl).
       - assert (Hit : In it all') by (apply Hq; left; reflexivity).
         assert (Hq' : incl q' all') by (intros y Hy; apply Hq; right; assumption).
-        destruct Hinv as [Hg [HleT [Hlef [Hpres [Hkeys Hsw]]]]].
-        destruct (process_below c Hut Harr s it T Hg (proj1 run1_closed) HleT (closed_all' it Hit))
+        destruct Hinv as [Hg [HleT [Hlef [Hpres Hsw]]]].
+        destruct (process_below c Hut Harr Hao s it T Hg (proj1 run1_closed) HleT
+                    (closed_wclosed c T it (closed_all' it Hit)))
           as [s' [Hps _]].
         assert (Hinv' : inv2 s').
-        { eapply inv2_step; [exact Hit| |exact Hps]. exact (conj Hg (conj HleT (conj Hlef (conj Hpres (conj Hkeys Hsw))))). }
+        { eapply inv2_step; [exact Hit| |exact Hps]. exact (conj Hg (conj HleT (conj Hlef (conj Hpres Hsw)))). }
+        assert (Hwfit : wf_item it) by (apply Hwf'; assumption).
+        destruct (process_flags_mono c Hut Harr _ _ _ Hps) as [Hcm _].
         destruct (process_cases c _ _ _ Hps) as [s1 [E1 Hc]].
         rewrite (set_loops_same _ _ _ (Hpres it Hit)) in E1. injection E1 as <-.
-        destruct Hc as [[Esub [-> Hp]]|[[Esub [Ei [-> Hp]]]|[Esub [k [Ei [E2 Hp]]]]]]; rewrite Hp.
+        destruct Hc as [[Esub [-> Hp]]|[[Esub [Ei [-> Hp]]]|[Esub [ks [Ei [E2 Hp]]]]]]; rewrite Hp.
         + (* subscripted: dropped *)
           apply IH; try assumption.
-          intros y Hy Hs. destruct (Hmem y Hy Hs) as [[<-|A]|A]; [congruence|left; assumption|right; assumption].
+          intros Hc y Hy. destruct (Hdone Hc y Hy) as [[<-|A]|A]; [|left; assumption|right; assumption].
+          right. split; [apply Hpres; assumption|]. congruence.
         + (* deferred *)
           apply IH; try assumption.
           * intros y [<-|Hy]; [assumption|apply Hb; assumption].
           * intros y [<-|Hy]; [assumption|apply Hbsub; assumption].
           * intros Hpr y [<-|Hy]; [|apply Hbun; assumption].
-            rewrite <- Ei. apply (infer_ext c). intro x. symmetry. apply lookup_kim_same.
-          * intros y Hy Hs. destruct (Hmem y Hy Hs) as [[<-|A]|A].
+            rewrite <- Ei. apply (eval_work_ext c). intro x. symmetry. apply lookup_kim_same.
+          * intros Hc y Hy. destruct (Hdone Hc y Hy) as [[<-|A]|A].
             -- left. apply in_or_app. right. left; reflexivity.
             -- left. apply in_app_or in A. apply in_or_app.
                destruct A as [A|A]; [left; assumption|right; right; assumption].
@@ -486,11 +308,12 @@ Section Full.
         + (* progress *)
           apply IH; try assumption.
           * discriminate.
-          * assert (Hgrow : tle (tbl s) (tbl s')) by (eapply (tset_grows c Hut Harr); eassumption).
-            intros y Hy Hs. destruct (Hmem y Hy Hs) as [[<-|A]|A].
-            -- right. eapply tset_has; eassumption.
-            -- left; assumption.
-            -- right. eapply has_key_mono; eassumption.
+          * intros Hc'.
+            assert (Hsw' : swallowed s' = false) by apply Hinv'.
+            destruct (process_nochange c Hut Harr Hins _ _ _ Hps Hg Hwfit Hc' Hsw') as [Es Hcl].
+            subst s'. intros y Hy.
+            destruct (Hdone (Hcm Hc') y Hy) as [[<-|A]|A]; [|left; assumption|right; assumption].
+            right. apply Hcl. right; assumption.
     Qed.
 
     Lemma outer_no_err : forall fuel s e, inv2 s -> outer c fuel s all' = OErr e -> False.
@@ -507,35 +330,36 @@ Section Full.
         destruct (final_check c (tbl s') all') as [e2|] eqn:Ef; [|discriminate].
         intros _.
         (* the table of s' is closed, hence equal to T, and T passed the consistency loop *)
-        destruct Hinv' as [Hg' [HleT' [Hlef' [_ [_ Hsw']]]]].
+        destruct Hinv' as [Hg' [HleT' [Hlef' [_ Hsw']]]].
         assert (Hg0 : good c (reset s)) by apply Hinv.
         assert (Hwf0 : forall it, In it (rev all' ++ []) -> wf_item it).
         { intros it Hin. rewrite app_nil_r in Hin. apply Hwf'. apply in_rev. assumption. }
         destruct (inner_closed c Hut Harr Hins _ _ _ _ _ _ Hg0 Hwf0 Ei Ec Hsw') as [Es Hcl].
-        assert (Hcl' : forall it, In it all -> stmt_closed c (tbl s') it).
-        { intros it Hin. rewrite Es. apply Hcl. rewrite app_nil_r. apply -> in_rev. apply in_all'; assumption. }
+        assert (Hcl' : forall it, In it all -> stmt_wclosed c (tbl s') it).
+        { intros it Hin. apply closed_wclosed. rewrite Es. apply Hcl. rewrite app_nil_r.
+          apply -> in_rev. apply in_all'; assumption. }
         assert (HTle : tle T (tbl s')).
         { destruct (start_below c Hut Harr all stf (tbl s') Hlef' Hcl') as [s1' [Es1 [Hles1 _]]].
           rewrite Hstart1 in Es1. injection Es1 as <-.
-          eapply (run_below c Hut Harr) with (st := st1) (all := all); try eassumption. apply Hg'. }
+          eapply (run_below c Hut Harr Hao) with (st := st1) (all := all); try eassumption. apply Hg'. }
         assert (Heq : table_equiv (tbl s') T) by (apply tle_antisym; assumption).
         assert (Hnone : final_check c (tbl s') all' = None).
         { apply final_check_none. intros it Hin.
           pose proof run1_final as Hf1. rewrite final_check_none in Hf1.
-          destruct (Hf1 it (in_all it Hin)) as [k Hk]. exists k. rewrite <- Hk.
-          apply (infer_ext c). intro x. apply lookup_equiv; assumption. }
+          rewrite (check_item_equiv _ _ it Heq). apply Hf1. apply in_all; assumption. }
         congruence.
       - intros _. eapply (inner_no_err _ (reset s) (rev all') [] false e'); try eassumption.
         + intros x Hx. apply in_rev; assumption.
         + intros x [].
         + intros x [].
         + intros _ x [].
-        + intros it Hin _. left. rewrite app_nil_r. apply -> in_rev. assumption.
+        + intros _ it Hin. left. rewrite app_nil_r. apply -> in_rev. assumption.
     Qed.
 
   End TwoRuns.
 
 End Full.
+
 
 (* ------------------------------------------------------------------ the theorem *)
 
@@ -546,6 +370,8 @@ Section FullTheorem.
   Hypothesis Hins : c_ins_changed c = true.
   Hypothesis Hraise : c_set_raises c = true.
   Hypothesis Hpre : c_loops_prepass c = true.
+  Hypothesis Hrestart : c_restart c = true.
+  Hypothesis Hao : c_arr_only c = true.
   Hypothesis Hinit : forall x, In x (c_init_global c) -> c_is_state c x = true.
 
   Lemma set_forced_sw : forall l st st', set_forced c st l = Ok st' -> swallowed st' = swallowed st.
@@ -553,7 +379,7 @@ Section FullTheorem.
     induction l as [|[[p x] k] r IH]; intros st st'; cbn.
     - intros [= <-]; reflexivity.
     - destruct (tset c st p x k) as [s1|e] eqn:E; [|discriminate].
-      intro H. rewrite (IH _ _ H). eapply (tset_sw c Hut Harr Hraise); eassumption.
+      intro H. rewrite (IH _ _ H). eapply (tset_sw c); eassumption.
   Qed.
 
   Lemma prepass_sw : forall l st st', prepass c st l = Ok st' -> swallowed st' = swallowed st.
@@ -561,7 +387,7 @@ Section FullTheorem.
     induction l as [|it r IH]; intros st st'; cbn.
     - intros [= <-]; reflexivity.
     - destruct (set_loops c st (fst it) (b_loops (snd it))) as [s1|e] eqn:E; [|discriminate].
-      intro H. rewrite (IH _ _ H). eapply (set_loops_sw c Hut Harr Hraise); eassumption.
+      intro H. rewrite (IH _ _ H). eapply (set_loops_sw c); eassumption.
   Qed.
 
   Lemma start_prepass : forall st l, start c st l = prepass c st l.
@@ -585,27 +411,21 @@ Section FullTheorem.
     assert (Hg1 : good c st1) by exact (start_good c Hut Harr _ _ _ Hgf E1).
     assert (Hs1 : swallowed st1 = false).
     { rewrite start_prepass in E1. rewrite (prepass_sw _ _ _ E1). assumption. }
-    assert (Hp1 : loops_present c (tbl st1) all).
-    { rewrite start_prepass in E1. exact (prepass_present c Hut Harr Hraise _ _ _ Hgf E1). }
-    destruct (run1_closed c Hut Harr Hins Hraise st1 all T sw fuel Hwf Hg1 H1 Hs1) as [HcT [Hle1 Hcl1]].
-    assert (Hcl1' : forall it, In it all' -> stmt_closed c T it).
-    { intros it Hin. apply Hcl1. eapply Permutation_in; [apply Permutation_sym; exact Hperm|exact Hin]. }
+    destruct (run1_closed c) with (st1 := st1) (all := all) (T := T) (sw1 := sw) (fuel1 := fuel)
+      as [HcT [Hle1 Hcl1]]; try assumption.
+    assert (Hcl1' : forall it, In it all' -> stmt_wclosed c T it).
+    { intros it Hin. apply closed_wclosed. apply Hcl1.
+      eapply Permutation_in; [apply Permutation_sym; exact Hperm|exact Hin]. }
     assert (HfT : tle (tbl stf) T) by exact (tle_trans _ _ _ (start_grows c Hut Harr _ _ _ Hgf E1) Hle1).
     destruct (start_below c Hut Harr all' stf T HfT Hcl1') as [st2 [E2 [Hle2 Hs2]]].
     rewrite E2 in H2.
     assert (Hg2 : good c st2) by exact (start_good c Hut Harr _ _ _ Hgf E2).
     assert (Hp2 : loops_present c (tbl st2) all').
-    { rewrite start_prepass in E2. exact (prepass_present c Hut Harr Hraise _ _ _ Hgf E2). }
+    { rewrite start_prepass in E2. eapply (prepass_present c) with (st := stf); eassumption. }
     assert (Hf2 : tle (tbl stf) (tbl st2)) by exact (start_grows c Hut Harr _ _ _ Hgf E2).
-    eapply (outer_no_err c Hut Harr Hins Hraise stf st1 all all' T sw fuel Hperm Hwf Hg1 E1 Hp1 H1 Hs1
-              fuel' st2 e); [|exact H2].
-    split; [assumption|]. split; [assumption|]. split; [assumption|]. split; [assumption|].
-    split; [|congruence].
-    intros ky Hky. rewrite start_prepass in E1.
-    destruct (prepass_keys_sub c Hut Harr _ _ _ _ E1 Hky) as [A|[it [i [Hit [Hi ->]]]]].
-    - eapply has_key_mono; eassumption.
-    - assert (Hit' : In it all') by (eapply Permutation_in; eassumption).
-      destruct (Hp2 it Hit' i Hi) as [v [Ev _]]. unfold has_key. congruence.
+    eapply (outer_no_err c) with (stf := stf) (st1 := st1) (all := all) (all' := all') (T := T) (sw1 := sw)
+      (fuel1 := fuel) (fuel := fuel') (s := st2) (e := e); try assumption.
+    split; [assumption|]. split; [assumption|]. split; [assumption|]. split; [assumption|congruence].
   Qed.
 
   Theorem order_independent : forall fuel fuel' forced all all',
@@ -630,13 +450,52 @@ Section FullTheorem.
         destruct (start c stf all') as [st2|e2] eqn:E2; [|discriminate].
         rewrite start_prepass in E1, E2.
         split.
-        - eapply (run1_sw c Hut Harr Hraise); [exact R1|]. rewrite (prepass_sw _ _ _ E1). assumption.
-        - eapply (run1_sw c Hut Harr Hraise); [exact R2|]. rewrite (prepass_sw _ _ _ E2). assumption. }
+        - eapply (run1_sw c) with (st1 := st1); try eassumption.
+          rewrite (prepass_sw _ _ _ E1). assumption.
+        - eapply (run1_sw c) with (st1 := st2); try eassumption.
+          rewrite (prepass_sw _ _ _ E2). assumption. }
       destruct Hsw as [-> ->].
-      eapply (order_independent_partial c Hut Harr Hins Hinit); eassumption.
+      eapply (order_independent_partial c Hut Harr Hins Hinit Hao); eassumption.
     - exfalso. eapply no_err; eassumption.
     - exfalso. eapply no_err with (all := all') (all' := all); try eassumption.
       apply Permutation_sym; assumption.
+  Qed.
+
+  (* ---------------------------------------------------------------- infer_kinds(DAGCode) *)
+
+  Lemma combine_fst_snd : forall {A B} (l : list (A * B)), combine (map fst l) (map snd l) = l.
+  Proof. induction l as [|[a b] l IH]; cbn; [reflexivity|]. rewrite IH. reflexivity. Qed.
+
+  Lemma queue_of_perm : forall d d', Permutation d d' -> Permutation (queue_of d) (queue_of d').
+  Proof.
+    intros d d' H. unfold queue_of. induction H; cbn.
+    - constructor.
+    - apply Permutation_app_head. assumption.
+    - rewrite !app_assoc. apply Permutation_app_tail. apply Permutation_app_comm.
+    - eapply Permutation_trans; eassumption.
+  Qed.
+
+  Lemma in_queue_of : forall d it, In it (queue_of d) ->
+    exists ph, In ph d /\ fst it = fst ph /\ In (snd it) (snd ph).
+  Proof.
+    intros d it H. unfold queue_of in H. apply in_flat_map in H. destruct H as [ph [Hph Hin]].
+    apply in_map_iff in Hin. destruct Hin as [s [<- Hs]]. exists ph. cbn. auto.
+  Qed.
+
+  (* the table does not depend on the order in which the phases dict lists the phases (nor on
+     the order of the statements inside a phase: order_independent) *)
+  Theorem infer_kinds_phase_order : forall fuel fuel' dag dag',
+    Permutation dag dag' ->
+    (forall ph s, In ph dag -> In s (snd ph) -> stmt_ok s = true) ->
+    infer_kinds c fuel dag <> OOutOfFuel ->
+    infer_kinds c fuel' dag' <> OOutOfFuel ->
+    outcome_sim (infer_kinds c fuel dag) (infer_kinds c fuel' dag').
+  Proof.
+    intros fuel fuel' dag dag' Hperm Hok. unfold infer_kinds, find_kinds. rewrite !combine_fst_snd.
+    apply order_independent.
+    - apply queue_of_perm; assumption.
+    - intros it Hin. destruct (in_queue_of _ _ Hin) as [ph [Hph [_ Hs]]]. exact (Hok ph (snd it) Hph Hs).
+    - intros p x k [].
   Qed.
 
 End FullTheorem.
